@@ -731,6 +731,54 @@ def runSched {κ : Type} (cfg : Cfg κ) (wtFirst : Bool) : Nat → St κ → Lis
       let (tr, sf) := runSched cfg wtFirst fuel s'
       (e :: tr, sf)
 
+/-! ### The repaired writer (fix fb588a3) — the MAIN LINE of the model
+
+Since fb588a3 `OPLOutputFormat::write_buffer` / `XMLOutputFormat::write_buffer` return early
+when the buffer holds no node, way, relation or changeset
+(`OutputFormat::contains_writable_objects`, output_format.hpp), so no pool task ever yields the
+empty string; PBF blobs and the XML header/trailer strings are never empty.  In terms of this
+model: what an OutputFormat call pushes never contains a `data []` item.  `Enc.repair` is that
+early return; `repairedMachine` is the Writer as it is now.  `machine` on a raw script that
+contains empty blocks is the PRE-FIX behaviour (kept as documentation of the defect
+`empty-block-ends-output`). -/
+
+/-- not the empty string (which is the end-of-data marker) -/
+def Item.good (it : Item) : Bool :=
+  match it.res with
+  | .data [] => false
+  | _ => true
+
+def Enc.good (e : Enc) : Bool := e.items.all Item.good
+
+def optGood : Option Enc → Bool
+  | none => true
+  | some e => e.good
+
+def Api.good : Api → Bool
+  | .put ib e => optGood ib && e.good
+  | .item f => optGood f
+  | .flush ib => optGood ib
+  | .close ib e => optGood ib && e.good
+  | .dtor ib e => optGood ib && e.good
+
+/-- `if (!contains_writable_objects(buffer)) return;` — a block that would be encoded as the
+    empty string is not submitted at all -/
+def Enc.repair (e : Enc) : Enc := { e with items := e.items.filter Item.good }
+
+def Api.repair : Api → Api
+  | .put ib e => .put (ib.map Enc.repair) e.repair
+  | .item f => .item (f.map Enc.repair)
+  | .flush ib => .flush (ib.map Enc.repair)
+  | .close ib e => .close (ib.map Enc.repair) e.repair
+  | .dtor ib e => .dtor (ib.map Enc.repair) e.repair
+
+def Cfg.repair {κ : Type} (cfg : Cfg κ) : Cfg κ := { cfg with hdrEnc := cfg.hdrEnc.repair }
+
+/-- the Writer of the current tree: every script, through the repaired output formats -/
+def repairedMachine {κ : Type} (cfg : Cfg κ) (k0 : κ) (os0 : OS) (script : List Api) :
+    Machine (St κ) Ev :=
+  machine cfg.repair k0 os0 (script.map Api.repair)
+
 /-- all threads have finished and the Writer is gone -/
 def St.terminated {κ : Type} (s : St κ) : Prop := s.destroyed = true
 
